@@ -374,10 +374,33 @@ func runPrepared(c *run.Ctx, rg *rig, pos *position, cs *caseSpec, p *plan, item
 	if exec != nil {
 		of = exec(full)
 	} else {
+		// history: every third label request comes right after the same question on the other API (Loki <-> Prometheus)
+		// for the same window and database - what the reader answered there is not an answer here
+		if sib, ok := siblingRequest(pos.Name, p); ok && cs.Idx%3 == 1 {
+			q := *p
+			q.Req, q.Direct = sib, nil
+			rg.exec(&q, full)
+			c.Floor("label requests asked right after the other API's same question", 0, 1)
+		}
 		of = rg.exec(p, full)
 	}
 	c.Event("requests", 1)
 	judge(c, rg, pos, cs, p, items, full, ref, of, build, exec != nil)
+}
+
+// siblingRequest: the same question for the same window on the other API.
+func siblingRequest(pos string, p *plan) (httpReq, bool) {
+	switch pos {
+	case "loki.labels":
+		return httpReq{Method: "GET", Path: "/api/v1/labels", Query: qs("start", secs(p.From), "end", secs(p.To))}, true
+	case "prom.labels":
+		return httpReq{Method: "GET", Path: "/loki/api/v1/labels", Query: qs("start", ns(p.From), "end", ns(p.To))}, true
+	case "loki.label.values":
+		return httpReq{Method: "GET", Path: "/api/v1/label/mk/values", Query: qs("start", secs(p.From), "end", secs(p.To))}, true
+	case "prom.label.values":
+		return httpReq{Method: "GET", Path: "/loki/api/v1/label/mk/values", Query: qs("start", ns(p.From), "end", ns(p.To))}, true
+	}
+	return httpReq{}, false
 }
 
 // judge applies the oracles to the outcome of the request on the full database. tail: the outcome is
@@ -635,7 +658,9 @@ func judge(c *run.Ctx, rg *rig, pos *position, cs *caseSpec, p *plan, items []*i
 				// of the attribute index are judged for such a row
 				continue
 			}
-			if has(body, it) && !has(string(or.Body), it) {
+			// (a row of the other signal is in neither database's admissible answer: its marker text in the response is a
+			// leak even when the request on the database without it answers the same - an answer kept from an earlier request)
+			if has(body, it) && (!has(string(or.Body), it) || it.Role == roleOther && strings.Contains(body, it.Marker)) {
 				hits = append(hits, describe(it))
 				if hit == nil || absDist(p, it) < absDist(p, hit) {
 					hit = it
